@@ -160,7 +160,7 @@ Search::Search(const Position& position, const Limits& limits,
         _search_depth = MAX_DEPTH;
         _search_time = limits.movetime;
     }
-    else if (limits.timeleft[position.color()] != 0)
+    else if (limits.clock || limits.timeleft[position.color()] != 0)
     {
         _search_time = TimeManager::calculateTime(limits, position.color(),
                                                   position.ply_count());
